@@ -38,6 +38,19 @@ Theorem C03_member_spec : forall h k p n,
 Proof. exact run_member_spec. Qed.
 Print Assumptions C03_member_spec.
 
+(** ... and that copy is the only member of that name ("exactly one") *)
+Theorem C03_names_unique : forall h p k,
+  NoDup (map fst (mem_of k (get (st_spaces (run h)) p))).
+Proof. exact names_unique_run. Qed.
+Print Assumptions C03_names_unique.
+
+(** the order in which sub spaces are re-derived (topological / DFS / BFS) does not matter *)
+Theorem C03_visit_order_irrelevant : forall g sp V V',
+  (forall q, In q V <-> In q V') ->
+  forall q, get (update_subs g sp V) q = get (update_subs g sp V') q.
+Proof. exact update_subs_order_irrelevant. Qed.
+Print Assumptions C03_visit_order_irrelevant.
+
 (** a derived cells has the formula of its first definer and is evaluated
     with names resolved in the sub space *)
 Theorem C03_derived_eval : forall h p n m,
